@@ -306,6 +306,9 @@ fn text_is(s: &LeanString, want: &[u8]) -> bool {
 
 macro_rules! dispatch_harness {
     ($name:ident, $val:expr, $want:expr) => {
+        dispatch_harness!($name, $val, $want, true);
+    };
+    ($name:ident, $val:expr, $want:expr, $inline:expr) => {
         #[kani::proof]
         #[kani::unwind(24)]
         fn $name() {
@@ -314,7 +317,7 @@ macro_rules! dispatch_harness {
             obl!(s.is_ok(), "dispatch.ok", "C14,C15");
             if let Ok(s) = s {
                 obl!(text_is(&s, $want), "dispatch.text_equals_display_text", "C14,C15");
-                obl!(!s.is_heap_allocated(), "dispatch.short_text_is_inline", "C09");
+                obl!(s.is_heap_allocated() != $inline, "dispatch.inline_iff_text_le_16_bytes", "C09");
                 core::mem::forget(s);
             }
         }
@@ -342,6 +345,18 @@ dispatch_harness!(dispatch_usize, 1000000usize, b"1000000");
 dispatch_harness!(dispatch_isize, -1isize, b"-1");
 // @harness name=dispatch_nonzero_i64 props=C14,C09 class=B bound="one concrete value per type" tier=quick fn=ToLeanString
 dispatch_harness!(dispatch_nonzero_i64, core::num::NonZero::<i64>::new(-9).unwrap(), b"-9");
+
+// boundary values (the extremes of the 64-bit types: 19-20 byte texts, on the heap)
+// @harness name=dispatch_i64_min props=C14,C09 class=B bound="one concrete value: i64::MIN" tier=quick fn=ToLeanString
+dispatch_harness!(dispatch_i64_min, i64::MIN, b"-9223372036854775808", false);
+// @harness name=dispatch_i64_max props=C14,C09 class=B bound="one concrete value: i64::MAX" tier=quick fn=ToLeanString
+dispatch_harness!(dispatch_i64_max, i64::MAX, b"9223372036854775807", false);
+// @harness name=dispatch_u64_max props=C14,C09 class=B bound="one concrete value: u64::MAX" tier=quick fn=ToLeanString
+dispatch_harness!(dispatch_u64_max, u64::MAX, b"18446744073709551615", false);
+// @harness name=dispatch_isize_min props=C14,C09 class=B bound="one concrete value: isize::MIN" tier=quick fn=ToLeanString
+dispatch_harness!(dispatch_isize_min, isize::MIN, b"-9223372036854775808", false);
+// @harness name=dispatch_i64_17 props=C14,C09 class=B bound="one concrete value: 17-byte text" tier=quick fn=ToLeanString
+dispatch_harness!(dispatch_i64_17, -1000000000000000i64, b"-1000000000000000", false);
 
 // @harness name=dispatch_lean_string props=C15,C08 class=B bound="source text <= 18 bytes, any storage kind" tier=quick fn=ToLeanString covers=dispatch.ls_reachable
 #[kani::proof]
